@@ -1,6 +1,7 @@
 ------------------------------ MODULE MC_Relay ------------------------------
 EXTENDS Relay
 CONSTANT MaxRecs
+MCReload == {"R"}       \* the relay is reconfigured (on -> off -> on); the other nodes keep am_relay false
 MCNodes == {"A", "R", "T"}
 MCAddrOf == [n \in MCNodes |-> CASE n = "A" -> "a" [] n = "R" -> "r" [] n = "T" -> "t"]
 MCAmRelay == [n \in MCNodes |-> n = "R"]
